@@ -173,13 +173,23 @@ def make_case(tier, seed, index):
     enabled = [t for t in ts if rnd.random() < 0.6] or ["ok"]
     n = rnd.randint(1, 6)
     reqs = []
-    for j in range(n):
-        t = rnd.choice(enabled)
-        reqs.append(_mkreq(rnd, t, tau, r, tr, newloop=(j > 0 and rnd.random() < 0.15)))
-    reqs.append(_mkreq(rnd, rnd.choice(["exhaust", "drops_ok", "drops_exc"]), tau, r, tr,
-                       newloop=rnd.random() < 0.1))
+    level = rnd.choice(["execute", "inverter"])
+    retunes = level == "execute" and rnd.random() < 0.3
+    ct, cr = tau, r
+    for j in range(n + 1):
+        retune = None
+        if retunes and j > 0 and rnd.random() < 0.4:
+            ct, cr = rnd.choice([0.25, 0.5, 1.0, 2.0]), rnd.choice([0, 1, 2, 3, 5])
+            retune = [ct, cr]
+        if j < n:
+            q = _mkreq(rnd, rnd.choice(enabled), ct, cr, tr, newloop=(j > 0 and rnd.random() < 0.15))
+        else:
+            q = _mkreq(rnd, rnd.choice(["exhaust", "drops_ok", "drops_exc"]), ct, cr, tr, newloop=rnd.random() < 0.1)
+        if retune:
+            q["retune"] = retune
+        reqs.append(q)
     return {"kind": "history", "sweep": False, "transport": tr, "keep_alive": ka, "timeout": tau, "retries": r,
-            "level": rnd.choice(["execute", "inverter"]), "reqs": reqs}
+            "level": level, "reqs": reqs}
 
 
 def key_class(key):
@@ -379,15 +389,22 @@ def run_history(case):
             segs.append([])
         segs[-1].append((j, q))
 
+    cur = {"tau": tau, "r": r}
+
     async def segment(items):
         for j, q in items:
             if q.get("think"):
                 await asyncio.sleep(q["think"])
-            faults, default, connects, exp = _script(q, tau, r, tr)
+            if q.get("retune") and case["level"] != "inverter":
+                # the application changes the (public) timeout / retries attributes of the protocol between requests
+                cur["tau"], cur["r"] = q["retune"]
+                proto.timeout, proto.retries = cur["tau"], cur["r"]
+            faults, default, connects, exp = _script(q, cur["tau"], cur["r"], tr)
             world.net.begin_script(faults, default, connects)
             rec = await one("req%d" % j, j)
             rec["exp"] = exp
             rec["j"] = j
+            rec["tau"], rec["r"] = cur["tau"], cur["r"]
             recs.append(rec)
             if q["type"] == "stray_frag":
                 # the stray piece must arrive while the socket is IDLE (during a request it would legitimately
@@ -420,7 +437,8 @@ def run_history(case):
                 violations.append(viol(f"C05:budget:{tr}:after={after}", f"request {j} ({q['type']}): no transmission"))
                 break
             continue
-        check_group(violations, txs, tau, r, tr, rec["t1"], rec["outcome"], exp, after, f"request {j} ({q['type']})")
+        check_group(violations, txs, rec["tau"], rec["r"], tr, rec["t1"], rec["outcome"], exp, after,
+                    f"request {j} ({q['type']}{', after retune to %r' % (q['retune'],) if q.get('retune') else ''})")
         if violations:
             break  # later requests of the same history are consequences; report the first deviation only
     sig = (tr, case["keep_alive"], tau, r, case["level"],
@@ -434,6 +452,7 @@ def run_history(case):
         "probe_after_transport_error": sum(1 for a, b in zip(case["reqs"], case["reqs"][1:])
                                            if a["type"] in ("senderr", "icmp", "rst", "fin", "refused")),
         "loop_exception_seen": 1 if world.loop_exceptions else 0,
+        "retuned_requests": sum(1 for q in case["reqs"] if q.get("retune")) if case["level"] != "inverter" else 0,
     }
     return C.package(world, case, violations, sig, nontrivial, probes)
 
